@@ -128,6 +128,12 @@ def explore(E, fail_set, allow_cancel, honours_ctx=True):
                 stack.append(s2)
     return list(found.values()), count
 
+def verdict(E, fails, cancel):
+    """(main can get stuck, goroutines can stay blocked after main returned) under exactly this failure set, without the
+    rendered providers' habit of honouring the context: comparable with the Lean enumeration"""
+    fnd, _ = explore(E, set(fails), cancel, honours_ctx=False)
+    return (any(f["kind"] == "hang" for f in fnd), any(f["kind"] == "leak" for f in fnd))
+
 def search(E, max_fail=2):
     """all failure sets up to max_fail fallible providers, with and without a caller cancellation"""
     fallible = [c["head"] for th in E["threads"] for c in th if c["fallible"]]
